@@ -123,6 +123,24 @@ SPECS = [
          ensures=["evals(1) == 1", "ext_count() == 1", "holes_here(1) == 0", "evals(2) == 0"],
          raises={'*': {'ensures': ["raised('e1') or ext_raised(0)"]}},
          serves=['C09', 'C05'], no_fresh=True),
+    dict(id='S-ExtendMacro',
+         # metal:extend-macro: the filler JOINS the chain of fillers for its slot -- in front of the ones
+         # the extended macros' users left, once; where no chain exists yet it starts one that holds
+         # exactly this filler
+         text='A<u metal:extend-macro="e1"><f metal:fill-slot="s">%s</f></u>B' % H1,
+         own_names=['macroname', '__slot_s'],
+         ensures=[
+             "evals(1) == 1", "holes_here(1) == 0",
+             # no chain yet: only the macro is called, and it finds a chain holding exactly this filler
+             "visible0('__slot_s') is not UNBOUND() or (ext_count() == 1 and "
+             "chain_len(scope_arg_visible(ext_arg(0, 1), '__slot_s')) == 1)",
+             # a chain exists: the filler is put in front of it, once, before the macro is called
+             "visible0('__slot_s') is UNBOUND() or (ext_count() == 2 and "
+             "ext_callee(0) is attr_of(visible0('__slot_s'), 'appendleft') and "
+             "ext_callee(1) is attr_of(val(1), 'include'))",
+         ],
+         raises={'*': {'ensures': ["raised('e1') or ext_count() > 0"]}},
+         serves=['C09'], no_fresh=True),
 ]
 
 CONTRACTS = schema_contracts(SPECS)
